@@ -130,7 +130,9 @@ static int classifySetter(const std::exception &e) {
   std::string m = e.what();
   if (m == "This operation is not allowed when the circuit is being placed") return 1;
   if (m.rfind("Number of elements is not the same", 0) == 0 || m.rfind("Number of weights is not the same", 0) == 0 ||
-      m == "Inconsistent number of pins for the net" || m == "Row height for row creation must be positive") return 2;
+      m == "Inconsistent number of pins for the net" || m == "Row height for row creation must be positive" ||
+      m == "Net pin references a cell that does not exist" || m == "Net limits should start with 0" ||
+      m == "Net limits should be sorted" || m == "Inconsistent number of pins for the nets") return 2;
   return 9;
 }
 static int execSetter(Circuit &c, const Op &o) {
@@ -165,8 +167,16 @@ static std::vector<Op> genOps(int mode, const Circuit &c, SplitMix &g, bool post
     { Op o; o.kind = 1; int d = (int)g.uni(1, 3); for (int j = 0; j < d; ++j) { o.a.push_back(n ? g.uni(0, n - 1) : 0); o.b.push_back(g.uni(-1, 3)); o.c.push_back(g.uni(-1, 3)); } o.w = g.uni(1, 4); if (n) ops.push_back(o); }
     { Op o; o.kind = 1; o.a = {0, 0}; o.b = {1}; o.c = {1, 1}; o.w = 2; ops.push_back(o); }                       // pin count mismatch
     { Op o; o.kind = 1; o.w = 2; ops.push_back(o); }                                                               // empty net: accepted, no effect
+    { Op o; o.kind = 1; o.a = {g.coin(50) ? (long long)n : -1LL}; o.b = {0}; o.c = {0}; o.w = 2; ops.push_back(o); }    // pin on a cell that does not exist
     { Op o; o.kind = 2; int nn = (int)g.uni(0, 2); o.a.push_back(0); for (int k = 0; k < nn && n; ++k) { int d = (int)g.uni(1, 3); for (int j = 0; j < d; ++j) { o.b.push_back(g.uni(0, n - 1)); o.c.push_back(g.uni(0, 2)); o.d.push_back(g.uni(0, 2)); } o.a.push_back(o.b.size()); }
       if (g.coin(50)) for (size_t k = 0; k + 1 < o.a.size(); ++k) o.e.push_back(g.uni(1, 4)); ops.push_back(o); }
+    { Op o; o.kind = 2; int v = (int)g.uni(0, 4);                                                                   // setNets with unacceptable arguments
+      if (v == 0) { o.a = {1, 1}; o.b = {0}; o.c = {0}; o.d = {0}; }                     // limits do not start with 0
+      else if (v == 1) { o.a = {0, 2, 1}; o.b = {0}; o.c = {0}; o.d = {0}; }             // unsorted
+      else if (v == 2) { o.a = {0, 2}; o.b = {0, 0}; o.c = {0}; o.d = {0, 0}; }          // pin vectors of different sizes
+      else if (v == 3) { o.a = {0, 1}; o.b = {0}; o.c = {0}; o.d = {0}; o.e = {2, 2}; }  // too many weights
+      else { o.a = {0, 1}; o.b = {(long long)n}; o.c = {0}; o.d = {0}; }                 // pin on a cell that does not exist
+      if (n) ops.push_back(o); }
     { Op o; o.kind = 3; int keep = (int)g.uni(0, 2); for (auto &r : c.rows()) { if (keep == 0) break; for (long long v : {(long long)r.minX, (long long)r.maxX, (long long)r.minY, (long long)r.maxY, (long long)(int)r.orientation}) o.a.push_back(v); }
       if (keep == 2) for (long long v : {g.uni(-5, 5), g.uni(6, 30), 100LL, 102LL, g.uni(0, 7)}) o.a.push_back(v);
       ops.push_back(o); }
